@@ -71,10 +71,13 @@ theorem findPool_eq (mn mx : Int) (np : Nat) (size : Int) :
       if size > mx then none
       else if ceilLog2Ratio size mn < 0 then (if (0 : Int) > (np : Int) - 1 then none else some 0)
       else if ceilLog2Ratio size mn > (np : Int) - 1 then none else some (ceilLog2Ratio size mn) := by
+  -- robust against equivalent rewrites of the source (e.g. `idx >= len` for `idx > len-1`, merged
+  -- conditions): split every `if` of both sides and let linear arithmetic decide each leaf
   unfold Pool.findPool
-  by_cases h1 : size > mx <;> by_cases h2 : ceilLog2Ratio size mn < 0 <;>
-    by_cases h3 : (0 : Int) > (np : Int) - 1 <;> by_cases h4 : ceilLog2Ratio size mn > (np : Int) - 1 <;>
-    simp [h1, h2, h3, h4]
+  generalize ceilLog2Ratio size mn = q
+  simp only [Bool.or_eq_true, decide_eq_true_eq]
+  repeat' split
+  all_goals first | rfl | omega | (exfalso; omega) | (simp_all; done) | (simp_all; omega)
 
 theorem findPutPool_eq (mn mx : Int) (np : Nat) (c : Int) :
     (Pool.findPutPool () mn mx np c).2 =
@@ -82,9 +85,10 @@ theorem findPutPool_eq (mn mx : Int) (np : Nat) (c : Int) :
       else if floorLog2Ratio c mn < 0 then (if (0 : Int) > (np : Int) - 1 then none else some 0)
       else if floorLog2Ratio c mn > (np : Int) - 1 then none else some (floorLog2Ratio c mn) := by
   unfold Pool.findPutPool
-  by_cases h1 : c > mx <;> by_cases h0 : c < mn <;> by_cases h2 : floorLog2Ratio c mn < 0 <;>
-    by_cases h3 : (0 : Int) > (np : Int) - 1 <;> by_cases h4 : floorLog2Ratio c mn > (np : Int) - 1 <;>
-    simp [h1, h0, h2, h3, h4]
+  generalize floorLog2Ratio c mn = q
+  simp only [Bool.or_eq_true, decide_eq_true_eq]
+  repeat' split
+  all_goals first | rfl | omega | (exfalso; omega) | (simp_all; done) | (simp_all; omega)
 
 /-- Get: a buffer is taken from level `idx` only when the request fits in that level. -/
 theorem get_fits (min max size : Nat) (hmin : 0 < min) (idx : Int)
